@@ -53,4 +53,8 @@ def run(prog: Program, col: Collector, tier: str, refs: Optional[Refs] = None, c
     algebra.r_number_tensor_siblings(prog, col, refs, cat, "R01.9")
     algebra.r_absent_vars_kernel(prog, col, refs, cat, "R01.10")
     algebra.r_op_params_used(prog, col, refs, cat, "R01.11")
+    algebra.r_commutative_default_symmetric(prog, col, refs, cat, "R01.12")
+    # eager evaluation of Number operands runs the scalar implementation of an op, of Tensor operands the array one: they must agree
+    from . import numerics
+    numerics.run_agreement(prog, col, refs, cat, rule="R01.13")
     return col
